@@ -21,3 +21,5 @@ pub mod timezone;
 pub mod units;
 #[cfg(feature = "value")]
 pub mod val;
+#[cfg(feature = "verif-hooks")]
+pub mod verif_hooks;
